@@ -170,17 +170,19 @@ class Policy:
         self.nq = nq
         self.eps = eps
         self.u = u
-        self.stream = None if stream is None else list(stream)
+        self.stream = None if stream is None else {k: list(v) for k, v in stream.items()}
         self.geo_param = geo_param
         self.used = 0
         self.underflow = False
 
-    def next(self):
-        if not self.stream:
+    def next(self, kind="normal"):
+        """``stream``: dict kind -> list of standardised draws, consumed in order per kind"""
+        q = self.stream.get(kind)
+        if not q:
             self.underflow = True
             return 0.0
         self.used += 1
-        return self.stream.pop(0)
+        return q.pop(0)
 
 
 def _axis(vals, nax):
@@ -308,7 +310,7 @@ class Ref:
         if prim in UNIFORM_LAW:
             lo, hi = args
             if pol.mode != "exact" and prim == "uniform_reparam":
-                z = pol.next() if pol.mode == "stream" else pol.u
+                z = pol.next("uniform") if pol.mode == "stream" else pol.u
                 return cont(lo + (hi - lo) * z, nax)
             t, w = _gl01(pol.nq)
             return _contract(_axis(w, nax), cont(lo + (hi - lo) * _axis(t, nax), nax + 1), pol.nq, nax)
@@ -317,7 +319,7 @@ class Ref:
             d = len(loc)
             L = _chol(cov)
             if pol.mode != "exact" and prim == "multivariate_normal_reparam":
-                z = [pol.next() if pol.mode == "stream" else pol.eps * (1.0 - 0.35 * j) for j in range(d)]
+                z = [pol.next("mvn") if pol.mode == "stream" else pol.eps * (1.0 - 0.35 * j) for j in range(d)]
                 return cont([loc[a] + sum(L[a][b] * z[b] for b in range(a + 1)) for a in range(d)], nax)
             t, w = _gh(pol.nq)
             zs, wt = [], 1.0
@@ -658,6 +660,32 @@ def unit_cond_site_program():
         ],
         "ret": ["*", ["cos", ["*", ["c", 1.5], ["v", "k"]]], ["+", ["c", 0.5], P("t1")]],
     }
+
+
+def unit_cond_after_parallel_program():
+    """a lax.cond (deterministic branches) on the outcome of a parallel enumeration"""
+    P = lambda n: ["p", n]  # noqa: E731
+    return {
+        "params": [{"name": "t0", "n": 0}, {"name": "t1", "n": 0}],
+        "body": [
+            {"s": "site", "v": "b", "prim": "flip_enum_parallel", "args": [["prob", ["+", ["c", 0.2], ["*", ["c", 0.9], P("t0")]]]],
+             "how": "direct"},
+            {"s": "cond", "v": "k", "pred": ["v", "b"],
+             "t": {"body": [], "ret": ["*", P("t0"), P("t1")]},
+             "f": {"body": [], "ret": ["sin", P("t1")]}},
+        ],
+        "ret": ["*", ["tanh", ["v", "k"]], ["+", ["c", 0.5], P("t0")]],
+    }
+
+
+def has_cond_after_parallel(spec):
+    seen = False
+    for st in spec["body"]:
+        if st["s"] == "site" and st["prim"] in ("flip_enum_parallel", "categorical_enum_parallel"):
+            seen = True
+        if st["s"] == "cond" and seen:
+            return True
+    return False
 
 
 def has_site_in_cond(spec):
